@@ -9,6 +9,7 @@
   * functions recognised by an exact template of their source (get_pending_timer)
 Fail closed like py2v.py."""
 import ast
+import copy
 
 from py2v import fail, COQTY, CMP, ANN
 from py2v_methods import CASTS
@@ -20,8 +21,16 @@ ANN.update({"TimingJobTimerUnion": "timingu"})
 
 
 class ObjMethod(Func):
-    def __init__(self, fd, known, state_type, fields, aliases, objmethods, templates, valdicts=None):
+    def __init__(self, fd, known, state_type, fields, aliases, objmethods, templates, valdicts=None,
+                 opaque_params=(), opaque_fields=(), constructors=None):
+        fd = copy.deepcopy(fd)
+        # keyword-only parameters are ordinary parameters of the model function; parameters the model has no
+        # value for (the callback, its arguments, tags, alias) are dropped: any use of them fails as an unbound name
+        fd.args.args = [a for a in fd.args.args + fd.args.kwonlyargs if a.arg not in opaque_params]
+        fd.args.kwonlyargs, fd.args.kw_defaults, fd.args.defaults = [], [], []
         Func.__init__(self, fd, known, valdicts=valdicts, has_self=True, state_type=state_type, fields=fields)
+        self.opaque_fields = set(opaque_fields)    # fields without a model value: assignments are skipped unread
+        self.constructors = constructors or {}     # class name -> (coq function, [arg types], result type)
         self.aliases = aliases          # '__pending_timer' -> (list field key, index projection, index setter, element type)
         self.objmethods = objmethods    # (type, name) -> (coq function, [arg types], result type, kind)
         self.templates = templates      # function name -> (coq function, [arg types], result type)
@@ -124,6 +133,21 @@ class ObjMethod(Func):
                 r = self.newvar("m")
                 self.pre.append((r, "(%s %s %s)" % (om[0], v, " ".join(args))))
                 return r, om[2]
+        if isinstance(n, ast.Call) and isinstance(n.func, ast.Name) and n.func.id in self.constructors and not n.keywords:
+            name, sig, rt = self.constructors[n.func.id]
+            args = self.coerce_args(n, [self.e(a) for a in n.args], sig)
+            r = self.newvar("o")
+            self.pre.append((r, "(%s %s)" % (name, " ".join(args))))
+            return r, rt
+        if isinstance(n, ast.Call) and isinstance(n.func, ast.Name) and n.func.id in self.known and not n.keywords \
+                and len(self.known[n.func.id]) > 2 and self.known[n.func.id][2]:
+            # a translated function that reads the clock
+            sig = self.known[n.func.id]
+            args = self.coerce_args(n, [self.e(a) for a in n.args], sig[0])
+            self.uses_clock = True
+            r = self.newvar("r")
+            self.pre.append((r, "(%s now_us %s)" % (n.func.id, " ".join(args))))
+            return r, sig[1]
         if isinstance(n, ast.Call) and isinstance(n.func, ast.Name) and n.func.id in self.templates and not n.keywords:
             name, sig, rt = self.templates[n.func.id]
             args = self.coerce_args(n, [self.e(a) for a in n.args], sig)
@@ -138,6 +162,15 @@ class ObjMethod(Func):
         s, rest = stmts[0], stmts[1:]
         if isinstance(s, ast.Return) and s.value is None:
             return "(Ok self)"
+        if isinstance(s, ast.Assign) and len(s.targets) == 1 and self.fkey(s.targets[0]) in self.opaque_fields:
+            return self.block(rest)
+        # f(args) for a translated function that only checks (returns None)
+        if isinstance(s, ast.Expr) and isinstance(s.value, ast.Call) and isinstance(s.value.func, ast.Name) \
+                and (s.value.func.id in self.known or s.value.func.id in self.templates):
+            pre, c, t = self.expr(s.value)
+            if t != "none":
+                fail(s, "result of a call is dropped")
+            return self.wrap(pre, self.block(rest))
         # self.__lock = threading.RLock(): no model state
         if isinstance(s, ast.Assign) and len(s.targets) == 1 and self.fkey(s.targets[0]) in self.skip_fields:
             if ast.unparse(s.value) != self.skip_fields[self.fkey(s.targets[0])]:
@@ -273,7 +306,8 @@ def check_template(tree, name, template):
     raise Untranslatable("untranslatable: function %s not found" % name)
 
 
-TEMPLATE_ARGS = {"get_pending_timer": "timers: list[JobTimer]"}
+TEMPLATE_ARGS = {"get_pending_timer": "timers: list[JobTimer]",
+                 "sane_timing_types": "job_type: JobType, timing: TimingJobUnion"}
 TEMPLATES = {"get_pending_timer": """
 unsorted_timer_datetimes: dict[JobTimer, dt.datetime] = {}
 for timer in timers:
@@ -283,4 +317,12 @@ sorted_timers = sorted(
     key=unsorted_timer_datetimes.get,  # type: ignore
 )
 return sorted_timers[0]
+""", "sane_timing_types": """
+try:
+    tg.check_type(timing, JOB_TIMING_TYPE_MAPPING[job_type]["type"])
+    if job_type == JobType.CYCLIC:
+        if not len(timing) == 1:
+            raise TypeError
+except TypeError as err:
+    raise SchedulerError(JOB_TIMING_TYPE_MAPPING[job_type]["err"]) from err
 """}
